@@ -66,7 +66,7 @@ func classifyStore(w *World, s *Store) (ok bool, form string) {
 	switch v := s.Val.(type) {
 	case IntV:
 		shown := v.T
-		t := w.ExpandLens(v.T, 0)
+		t := stripWraps(w.ExpandLens(v.T, 0), map[string]bool{}) // 16-bit overflow of a length is outside this property
 		if t.IsConst() {
 			return true, "constant"
 		}
